@@ -31,6 +31,38 @@ def _startswith_bases(fx):
     return out
 
 
+def w2f_label(chk, repo, rid):
+    """shared (C09.b, C03.h): the W2F ids appended to a label are those of the combination that was applied"""
+    from sa import sem
+    vt = repo.func(VPD + 'VariantPeptideDict.translational_modification')
+    chk.uses(vt)
+    nvt = sem.nf(repo, vt)
+    combs = [l for l in ast.walk(nvt) if isinstance(l, ast.For) and 'combinations(' in unparse(l.iter) and isinstance(l.target, ast.Name)]
+    if len(combs) != 1:
+        raise AnalysisError(f"anchor={vt.qual}: loop over itertools.combinations(...) not found ({len(combs)})")
+    COMB = combs[0].target.id
+    # label: every id list that is joined into a label inside the combination loop ranges over the applied combination
+    joins = [c for c in ast.walk(combs[0]) if isinstance(c, ast.Call) and call_name(c) == 'join' and c.args]
+    srcs = []
+    for c in joins:
+        a = c.args[0]
+        if isinstance(a, (ast.GeneratorExp, ast.ListComp)):
+            srcs.append(unparse(a.generators[0].iter))
+        else:
+            srcs.append(unparse(a))
+    lab = [n for n in ast.walk(combs[0]) if isinstance(n, (ast.Assign, ast.AugAssign)) and
+           any(isinstance(t, ast.Attribute) and t.attr == 'label' for t in (n.targets if isinstance(n, ast.Assign) else [n.target]))]
+    cp = [n for n in ast.walk(combs[0]) if isinstance(n, ast.Call) and call_name(n) == 'copy' and n.args and 'metadata' in unparse(n.args[0])]
+    hv = [n for n in ast.walk(combs[0]) if isinstance(n, ast.Assign) and isinstance(n.targets[0], ast.Attribute) and n.targets[0].attr == 'has_variants'
+          and isinstance(n.value, ast.Constant) and n.value.value is True]
+    ok = bool(joins) and all(x == COMB for x in srcs) and bool(lab) and bool(cp) and bool(hv)
+    chk.ob(rid, 'W2F ids of the applied combination are appended to a copy of each metadata', vt.where, ok,
+           f"W2F label construction altered (ids joined from {srcs}, applied combination is '{COMB}'; label stores {len(lab)}, metadata copies {len(cp)})",
+           key=vt.qual + '::w2f-label', fn=vt.qual)
+
+    return nvt, combs, COMB
+
+
 def run(chk, repo):
     chk.clauses = [
         'C09.a only coding transcripts reach the caller; --selenocysteine-termination / --w2f-reassignment are bound to truncate_sec / w2f; '
@@ -123,29 +155,7 @@ def run(chk, repo):
     vt = repo.func(VPD + 'VariantPeptideDict.translational_modification')
     chk.uses(vt)
     from sa import sem
-    nvt = sem.nf(repo, vt)
-    combs = [l for l in ast.walk(nvt) if isinstance(l, ast.For) and 'combinations(' in unparse(l.iter) and isinstance(l.target, ast.Name)]
-    if len(combs) != 1:
-        raise AnalysisError(f"anchor={vt.qual}: loop over itertools.combinations(...) not found ({len(combs)})")
-    COMB = combs[0].target.id
-    # label: every id list that is joined into a label inside the combination loop ranges over the applied combination
-    joins = [c for c in ast.walk(combs[0]) if isinstance(c, ast.Call) and call_name(c) == 'join' and c.args]
-    srcs = []
-    for c in joins:
-        a = c.args[0]
-        if isinstance(a, (ast.GeneratorExp, ast.ListComp)):
-            srcs.append(unparse(a.generators[0].iter))
-        else:
-            srcs.append(unparse(a))
-    lab = [n for n in ast.walk(combs[0]) if isinstance(n, (ast.Assign, ast.AugAssign)) and
-           any(isinstance(t, ast.Attribute) and t.attr == 'label' for t in (n.targets if isinstance(n, ast.Assign) else [n.target]))]
-    cp = [n for n in ast.walk(combs[0]) if isinstance(n, ast.Call) and call_name(n) == 'copy' and n.args and 'metadata' in unparse(n.args[0])]
-    hv = [n for n in ast.walk(combs[0]) if isinstance(n, ast.Assign) and isinstance(n.targets[0], ast.Attribute) and n.targets[0].attr == 'has_variants'
-          and isinstance(n.value, ast.Constant) and n.value.value is True]
-    ok = bool(joins) and all(x == COMB for x in srcs) and bool(lab) and bool(cp) and bool(hv)
-    chk.ob('C09.b', 'W2F ids of the applied combination are appended to a copy of each metadata', vt.where, ok,
-           f"W2F label construction altered (ids joined from {srcs}, applied combination is '{COMB}'; label stores {len(lab)}, metadata copies {len(cp)})",
-           key=vt.qual + '::w2f-label', fn=vt.qual)
+    nvt, combs, COMB = w2f_label(chk, repo, 'C09.b')
 
     chk.rule('C09.c', 'W>F combination builder accumulates', 1)
     inner = [l for l in ast.walk(combs[0]) if isinstance(l, ast.For) and unparse(l.iter) == COMB]
